@@ -69,7 +69,8 @@ type rawSess struct {
 	record  bool
 	tracks  int
 	path    string
-	cp      [2]int // client RTP port per media (RTCP = +1)
+	cp      [2]int // client RTP port per media
+	cpc     [2]int // client RTCP port per media (cp+1, or - every other session - a port of another pair)
 	socks   [2][2]*net.UDPConn
 	sessID  string
 	srvPort [2]int // server RTP, RTCP port
@@ -117,6 +118,12 @@ func sessionOf(res *base.Response) string {
 
 // setupRequest builds a SETUP for one track.
 func setupRequest(p *rig.Peer, url string, track int, proto string, record bool, clientPort int, sessID string) *base.Request {
+	return setupRequest2(p, url, track, proto, record, clientPort, clientPort+1, sessID)
+}
+
+// setupRequest2: the RTCP port of the client_port pair is given explicitly (it need not be the RTP
+// port plus one).
+func setupRequest2(p *rig.Peer, url string, track int, proto string, record bool, clientPort, clientRTCPPort int, sessID string) *base.Request {
 	var t headers.Transport
 	mode := headers.TransportModePlay
 	if record {
@@ -129,7 +136,7 @@ func setupRequest(p *rig.Peer, url string, track int, proto string, record bool,
 		t.Protocol = headers.TransportProtocolTCP
 		t.InterleavedIDs = &[2]int{2 * track, 2*track + 1}
 	} else {
-		t.ClientPorts = &[2]int{clientPort, clientPort + 1}
+		t.ClientPorts = &[2]int{clientPort, clientRTCPPort}
 	}
 	h := base.Header{"Transport": t.Marshal()}
 	if sessID != "" {
@@ -156,9 +163,14 @@ func negotiate(ts *rig.TestServer, localIP, path, proto, state string, tracks in
 		if proto == "udp" {
 			for tries := 0; ; tries++ {
 				v.cp[m] = rig.FreePortPair()
+				v.cpc[m] = v.cp[m] + 1
+				if v.run%2 == 1 {
+					// a non-consecutive pair: the RTCP port comes from another reserved pair
+					v.cpc[m] = rig.FreePortPair() + 1
+				}
 				a, e1 := bindUDP(localIP, v.cp[m])
 				if e1 == nil {
-					b, e2 := bindUDP(localIP, v.cp[m]+1)
+					b, e2 := bindUDP(localIP, v.cpc[m])
 					if e2 == nil {
 						v.socks[m][0], v.socks[m][1] = a, b
 						break
@@ -199,7 +211,7 @@ func negotiate(ts *rig.TestServer, localIP, path, proto, state string, tracks in
 		}
 	}
 	for m := 0; m < tracks; m++ {
-		res, err := do(setupRequest(p, v.url(), m, proto, v.record, v.cp[m], v.sessID))
+		res, err := do(setupRequest2(p, v.url(), m, proto, v.record, v.cp[m], v.cpc[m], v.sessID))
 		if err != nil {
 			v.close()
 			return nil, err
